@@ -175,6 +175,17 @@ def h_forward(sx, cfg):
                         tot_i = tot_i + im[r + (comp,)]
                 sx.check(f"zero-frequency-is-sum[{comp}]", sx.And(sx.eq(gr, tot_r), sx.eq(gi, tot_i)))
     sx.check("source-untouched", tuple(int(x) for x in f.mesh.n) == n)
+    # the transformed field itself keeps its values (a transform must not consume its operand) ...
+    for idx in np.ndindex(*n):
+        for comp in range(nv):
+            fr, fi = _parts(f.array[idx + (comp,)])
+            sx.check(f"operand-values-kept{idx}[{comp}]", sx.And(sx.eq(fr, re[idx + (comp,)]), sx.eq(fi, im[idx + (comp,)] if im is not None else 0.0)))
+    # ... and a later transform follows the mesh as it is then (history: transform, rescale the mesh in place, transform again)
+    s_ = 2.0
+    f.mesh.scale(s_, inplace=True)
+    with _fft(sx):
+        g2 = f.rfftn() if rfft else f.fftn()
+    _check_kmesh(sx, g2.mesh, f.mesh, n, [x * s_ for x in e], dims, rfft, "kmesh-after-inplace-rescale")
 
 
 def h_inverse(sx, cfg):
@@ -188,7 +199,13 @@ def h_inverse(sx, cfg):
             g = f.rfftn().irfftn(shape=n if cfg.get("shape_as") != "list" else list(n))
         else:
             try:
-                g = f.rfftn().irfftn()
+                kf = f.rfftn()
+                kn_before = tuple(int(x) for x in kf.mesh.n)
+                g = kf.irfftn()
+                # the k-space field is an operand: an inverse without shape must not alter it or its mesh
+                sx.check("k-field-mesh-untouched-by-inverse", tuple(int(x) for x in kf.mesh.n) == kn_before and tuple(np.shape(kf.array))[:-1] == kn_before)
+                g_again = kf.irfftn(shape=n)
+                sx.check("k-field-still-usable-with-shape", tuple(int(x) for x in g_again.mesh.n) == n)
             except ValueError:
                 # without the original last-axis count an odd (or single-cell) last axis cannot be recovered
                 sx.check("refused-only-when-last-axis-not-recoverable", n[-1] % 2 == 1)
